@@ -3,6 +3,7 @@ import Pcore.Proofs.FormatContainer
 import Pcore.Proofs.FormatRef
 import Pcore.Proofs.FormatCtor
 import Pcore.Proofs.FormatAlt
+import Pcore.Proofs.FormatFloat
 import Pcore.Generated.FormatLetters
 /-!
 # C20 — String formatting is total and faithful to the format directive
@@ -60,6 +61,10 @@ Full statement / proved / missing
                          breaks decided from the previous element), values of any depth; `C20_alt_line_break`.
 * `C20_container_array`, `C20_container_hash` — non-alt: left delimiter ++ intercalate (separator ++ " ") (element
                          renderings) ++ right delimiter; elements that are containers fall under the same theorems.
+* `C20_float_pad`, `C20_float_restore`, `C20_float_sign_invariant`, `C20_float_width` — the float path AROUND the digits,
+                         for every FloatIO (whatever digit strings fmt returns): padNumber's placement of blanks and
+                         zeros, the restored fraction keeps the printed text and does not depend on the sign, the width
+                         is reached by every letter (assuming only that fmt pads its own output: `IOWidth`).
 * missing: the digits of `%e %f %g %a` (fmt/strconv float formatting is a parameter `FloatIO`; only the dispatch,
   the format string handed over, floatGFormat's fraction restoration and padNumber are modelled and compared);
   strings.ToUpper/ToLower
@@ -459,6 +464,50 @@ example : formatDirective io0 "%-05s".toList (.str "ab".toList) = .text "ab   ".
     formatDirective io0 "%05s".toList (.str "ab".toList) = .text "   ab".toList ∧
     formatDirective io0 "%-6b".toList (.int 5) = .text "101   ".toList ∧
     formatDirective io0 "%-06d".toList (.int 5) = .text "5     ".toList := by decide +kernel
+
+/-! ## the float path, around the digits (for every FloatIO: whatever digit strings fmt returns) -/
+
+/-- **padding of a float rendering** (`padNumber`; the defects fixed by 25b91c3): the text is never cut; blanks to the
+    left, or to the right with `-`; with the `0` flag and no `-`, zeros between the sign character and the digits —
+    never before the sign, never to the right -/
+theorem C20_float_pad (f : Fmt) (s : Str) :
+    padNumber f s =
+      if f.left then s ++ spaces (f.width.getD 0 - s.length)
+      else if f.zeroPad then (splitNumSign s).1 ++ zeros (f.width.getD 0 - s.length) ++ (splitNumSign s).2
+      else spaces (f.width.getD 0 - s.length) ++ s := padNumber_layout f s
+
+/-- **the restored fraction keeps what fmt printed**: `floatGFormat` only appends `.` and `0`s, and the result has a
+    decimal point -/
+theorem C20_float_restore (f : Fmt) (str : Str) :
+    ∃ suffix, gRestored f str = str ++ suffix ∧ (∀ c ∈ suffix, c = '.' ∨ c = '0') ∧ (gRestored f str).contains '.' = true :=
+  gRestored_prefix f str
+
+/-- **… independently of the sign** (the defect fixed by 457acd0): for a sign character `c` and an unsigned text, the
+    restored text of `c :: str` is `c` and the restored text of `str`, and the decision to force scientific notation is
+    the same -/
+theorem C20_float_sign_invariant (f : Fmt) (c : Char) (str : Str) (hc : isSignChar c = true)
+    (hs : ∀ x, str.head? = some x → isSignChar x = false) :
+    gRestored f (c :: str) = c :: gRestored f str ∧ gForced f (c :: str) = gForced f str :=
+  ⟨gRestored_sign f c str hc hs, gForced_sign f c str hc hs⟩
+
+/-- **width, every letter of a Float** — assuming only that fmt pads its own output to the width it is given
+    (`IOWidth`): the three ways out of `floatGFormat` (scientific text, forced scientific notation, restored fraction),
+    `%e %E %f`, the integer letters, `p` and `s` all reach the width -/
+theorem C20_float_width (io : FloatIO) (hio : IOWidth io) (d : Str) (f : Fmt) (bits w : Nat) (s : Str)
+    (h : Directive d f) (hw : f.width = some w) (hs : formatDirective io d (.float bits) = .text s) : w ≤ s.length := by
+  rw [fmtVal_single io f _ d h] at hs
+  have hg : getFormat [(Key.any, FTree.mk f none)] .float = .mk f none := by simp [getFormat, Key.accepts]
+  simp only [fmtVal, hg, FTree.f] at hs
+  exact fmtFloat_width_all io hio f (parseFormat_wf d none none f h (parseFormat_numOK d none none f h))
+    (C20_directive_go d f h) bits w s hw hs
+
+/-- non-vacuity: an io that answers like fmt for `%g` of -1.5 and `%.0g` of 255; the sign is not counted, the width is
+    reached on the scientific path, zeros follow the sign -/
+def ioDemo : FloatIO :=
+  ⟨fun fm _ => if fm = "%g".toList then "-1.5".toList else if fm = "%.0g".toList then "3e+02".toList else [], fun _ => 0, fun _ => 0⟩
+example : fmtFloat ioDemo (parsed "%010g") 0 = .text "-001.50000".toList ∧
+    fmtFloat ioDemo (parsed "%12.0g") 0 = .text "       3e+02".toList ∧
+    fmtFloat ioDemo (parsed "%-9g") 0 = .text "-1.50000 ".toList := by decide +kernel
 
 /-! ## containers -/
 
